@@ -22,12 +22,25 @@ def build(d, san=False):
     return out
 
 
+def build_htopo(d):
+    sub = os.path.join(d, "htopo")
+    core = vc.build_core(sub, files=SRCS, hook=False, extra=["-w"])
+    objs = vc.build_objs(sub, ["harness/h_topo.c", "engine/rsched.c"], extra=["-w"])
+    return vc.link(os.path.join(sub, "h_topo"), objs + core)
+
+
 def run(tier, seed):
     t0 = time.time()
     d = vc.fresh_dir(PID)
     lvl = 0 if tier == "quick" else 1
     reps = [vc.run_seqx(build(d), [lvl], timeout=3000)]
     tot, viol = vc.seqx_collect(PID, "topo", reps)
+    # concurrent use: every interleaving of the calls of two LPs on two scheduler threads
+    ht = build_htopo(d)
+    p = "4" if tier == "quick" else "8"
+    rreps, rm, rviol = vc.rsched_scenarios(PID, "h_topo", ht, [(f"conc_g{g}", ["-p", p, "-j", "4", "--deadline", "600", f"g={g}"])
+                                                             for g in (1, 2, 3)], d, workers=3)
+    viol += rviol
     cover = reps[0].get("shuffle_index_tuples_covered", 0)
     if not viol and cover < (600 if tier == "quick" else 715):
         raise vc.EngineError(f"vacuous: only {cover} of 720 shuffle index tuples drawn by the generator states used")
@@ -35,10 +48,14 @@ def run(tier, seed):
     cov = dict(tot)
     cov["states"] = tot["evaluations"]
     cov["traces_validated_against_impl"] = tot["transitions"]
+    cov["concurrent_interleavings"] = {"executions": rm["executions"], "exhaustive": rm["exhaustive"], "bound_p": int(p),
+                                       "scenarios": [r["id"] for r in rreps]}
     cov["rule"] = ("all 8 geometries x sizes (grids h,w in 1..%d; others 1..%d regions; every link set on <=3 regions) x every source x every "
                    "fixed direction and DIRECTION_RANDOM on %d generator states (real seeding of many (seed, LP) pairs + crafted boundary "
                    "draws; %d of the 720 index tuples of the 6-direction shuffle drawn); every 4th random query is followed by another "
-                   "LP's query and repeated after resetting the caller's generator (rollback); free-running two-thread comparison; "
+                   "LP's query and repeated after resetting the caller's generator (rollback); every interleaving (call granularity, <= 4 "
+                   "preemptions, thorough 8 = all) of 2 x 4 DIRECTION_RANDOM calls of two LPs on two scheduler threads on a 3x3 hexagon / "
+                   "square / torus compared with each LP's answers alone; free-running two-thread comparison; "
                    "states = (topology, source) pairs, transitions = random queries; non-trivial = query repeated after rollback"
                    % (reps[0].get("max_grid", 0), reps[0].get("max_regions", 0), reps[0].get("generator_states", 0), cover))
     vc.write_evidence(PID, tier, "model_checking", cov,
